@@ -1147,6 +1147,62 @@ def join_at_despawn(seed):
     return '\n'.join(lines) + '\n', dict()
 
 
+def optin_multi(seed):
+    """C04: entities that carry SEVERAL exclusions at once (two or three registered kinds excluded on one
+    entity, from the start), an excluded SkinnedMesh whose joint is marked for synchronization only LATER
+    (next to a control skin that shares the joint), live traffic and a late joiner: none of the excluded
+    components may ever be received or held by another peer."""
+    r = random.Random(seed)
+    n = r.choice([2, 3, 3])
+    types = [0, 1, 2, 7, 8]
+    lines = ['PEERS %d' % n]
+    enabled = {}
+    for p in range(n):
+        for t in types:
+            lines.append('OP %d reg %d' % (p, t))
+        enabled[p] = (1, 1, 1)
+        lines.append('OP %d switches 1 1 1' % p)
+    late = n - 1 if n > 2 else None
+    for p in range(n):
+        if p != late:
+            lines.append('OP %d setup' % p)
+    lines.append('ROUND %d' % r.randint(6, 9))
+    excluded, val, h = [], 20, 0
+    owner = 0        # exclusion is a per-peer marker: the host's own entities (snapshot and live path)
+    for _ in range(r.randint(2, 3)):
+        h += 1
+        ts = r.sample([0, 1, 2, 7], r.randint(2, 4))
+        val += len(ts)
+        lines.append('OP %d spawn %d 1 %s' % (owner, h, ' '.join('%d:%d' % (t, val + i) for i, t in enumerate(ts))))
+        for t in r.sample(ts, r.randint(2, len(ts))):
+            lines.append('OP %d excl %d %d 1' % (owner, h, t))
+            excluded.append((str(h), t))
+        if r.random() < 0.5:
+            lines.append('ROUND %d' % r.randint(1, 2))
+    # the skins
+    j, s1, s2 = h + 1, h + 2, h + 3
+    lines.append('OP %d spawn %d 0 0:%d' % (owner, j, j))
+    lines.append('OP %d spawn %d 1 0:%d' % (owner, s1, s1))
+    lines.append('OP %d spawn %d 1 0:%d' % (owner, s2, s2))
+    lines.append('OP %d skin %d %d 5' % (owner, s1, j))
+    lines.append('OP %d excl %d 8 1' % (owner, s1))
+    excluded += [(str(s1), 8), (str(s1), 9)]
+    lines.append('OP %d skin %d %d 6' % (owner, s2, j))
+    lines.append('DRAIN 40')
+    lines.append('OP %d mark %d' % (owner, j))
+    lines.append('ROUND %d' % r.randint(2, 5))
+    # live writes of excluded and other kinds
+    for (u, t) in r.sample(excluded, min(3, len(excluded))):
+        if t in (0, 1, 2, 7):
+            val += 1
+            lines.append('OP %d write %s %d %d' % (owner, u, t, val))
+    lines.append('DRAIN 40')
+    if late is not None:
+        lines.append('OP %d setup' % late)
+    lines.append('DRAIN 80')
+    return '\n'.join(lines) + '\n', dict(enabled=enabled, unmarked=[], never_types=[], excluded=excluded, excluded_later=[], common=types)
+
+
 def companions_present(seed):
     """C17 "leaves already present companions untouched": a replica carries a GlobalTransform of the
     application's own (written locally on the receiving peer, not synchronized) BEFORE the Transform
